@@ -599,6 +599,9 @@ struct Detach {
     handle: usize,
     at_script: bool,
     n: usize,
+    /// `hoist=`: instead of just detaching the node, the script moves it under the document node and
+    /// then detaches its former parent (so a still-open ancestor hangs nowhere)
+    hoist: bool,
 }
 
 fn parse_detach(x: &str) -> Option<Detach> {
@@ -611,7 +614,7 @@ fn parse_detach(x: &str) -> Option<Detach> {
     } else {
         return None;
     };
-    Some(Detach { handle, at_script, n })
+    Some(Detach { handle, at_script, n, hoist: false })
 }
 
 fn do_detach(sink: &TS, d: &Option<Detach>, at_script: bool, n: usize) {
@@ -621,6 +624,27 @@ fn do_detach(sink: &TS, d: &Option<Detach>, at_script: bool, n: usize) {
                 return; // already collected: a script could not reach it
             }
             let inner = sink.handles.borrow()[d.handle].clone();
+            if d.hoist {
+                // former parent, looked up among the handles the sink has handed out
+                let w = inner.parent.take();
+                let parent = w.as_ref().and_then(|w| w.upgrade());
+                inner.parent.set(w);
+                let pid = parent.as_ref().and_then(|p| {
+                    sink.handles.borrow().iter().position(|h| std::rc::Rc::ptr_eq(h, p))
+                });
+                let (Some(parent), Some(pid)) = (parent, pid) else { return };
+                if pid == 0 || sink.poisoned.borrow().get(pid).copied().unwrap_or(false) {
+                    return;
+                }
+                let doc = sink.handles.borrow()[0].clone();
+                sink.remove_from_parent(&TracedHandle { id: d.handle, inner: inner.clone() });
+                sink.append(
+                    &TracedHandle { id: 0, inner: doc },
+                    markup5ever::interface::NodeOrText::AppendNode(TracedHandle { id: d.handle, inner }),
+                );
+                sink.remove_from_parent(&TracedHandle { id: pid, inner: parent });
+                return;
+            }
             sink.remove_from_parent(&TracedHandle { id: d.handle, inner });
         }
     }
@@ -645,6 +669,11 @@ fn gc_run(xml: bool, opts: &str, chunks: &str) -> String {
             } else if let Some(x) = o.strip_prefix("detach=") {
                 match parse_detach(x) {
                     Some(d) => detach = Some(d),
+                    None => return "bad-case".into(),
+                }
+            } else if let Some(x) = o.strip_prefix("hoist=") {
+                match parse_detach(x) {
+                    Some(d) => detach = Some(Detach { hoist: true, ..d }),
                     None => return "bad-case".into(),
                 }
             } else if let Some(x) = o.strip_prefix("frag=") {
